@@ -975,7 +975,34 @@ func typeDefault(t dsl.Type, contextNamespace string, namedType string, st dsl.S
 	return "", defaultValueKindNone
 }
 
+type recordDefaultKey struct {
+	record           *dsl.RecordDefinition
+	contextNamespace string
+}
+
+type recordDefault struct {
+	expression string
+	kind       defaultValueKind
+}
+
+// The default of a record is built from the defaults of its fields. Without remembering the result,
+// a chain of records that each hold the previous one twice costs time exponential in its length.
+var recordDefaults = make(map[recordDefaultKey]recordDefault)
+
 func typeDefinitionDefault(t dsl.TypeDefinition, contextNamespace string, st dsl.SymbolTable) (string, defaultValueKind) {
+	if record, ok := t.(*dsl.RecordDefinition); ok {
+		key := recordDefaultKey{record, contextNamespace}
+		if known, found := recordDefaults[key]; found {
+			return known.expression, known.kind
+		}
+		expression, kind := computeTypeDefinitionDefault(t, contextNamespace, st)
+		recordDefaults[key] = recordDefault{expression, kind}
+		return expression, kind
+	}
+	return computeTypeDefinitionDefault(t, contextNamespace, st)
+}
+
+func computeTypeDefinitionDefault(t dsl.TypeDefinition, contextNamespace string, st dsl.SymbolTable) (string, defaultValueKind) {
 	switch t := t.(type) {
 	case dsl.PrimitiveDefinition:
 		switch t {
